@@ -230,6 +230,10 @@ func WriteConfDir(cfg Config) {
 	for n, c := range cfg.Quotas {
 		must(os.WriteFile(filepath.Join(conf, "quotas", n), []byte(c), 0o644))
 	}
+	for n, c := range cfg.PathParams { // names may contain a sub-directory
+		must(os.MkdirAll(filepath.Dir(filepath.Join(conf, "path_params", n)), 0o755))
+		must(os.WriteFile(filepath.Join(conf, "path_params", n), []byte(c), 0o644))
+	}
 }
 
 // TreeDigest returns path -> content for every file under the configuration root.
